@@ -535,6 +535,28 @@ func parseDecls(s string) []decl {
 // C14-style-semicolon-in-value-cut).
 func innerSemicolon(s string) bool { return strings.Count(s, ";") > len(splitDecls(s))-1 }
 
+// openQuote reports a quote character that opens a CSS string which is never closed (Tom's):
+// where such a value or declaration ends is not defined, nothing is asserted about the style then.
+func openQuote(s string) bool {
+	var quote rune
+	escaped := false
+	for _, r := range s {
+		switch {
+		case escaped:
+			escaped = false
+		case quote != 0:
+			if r == '\\' {
+				escaped = true
+			} else if r == quote {
+				quote = 0
+			}
+		case r == '\'' || r == '"':
+			quote = r
+		}
+	}
+	return quote != 0
+}
+
 // separatorInValue reports a ';' that would end the declaration when s is used as one value.
 func separatorInValue(s string) bool { return len(splitDecls(s)) > 1 }
 
@@ -666,6 +688,8 @@ func (c Case) model(k int) *expect {
 				switch {
 				case !spec:
 					e.styleFree = true
+				case truthy && v.K == "string" && openQuote(s):
+					e.styleFree = true // an apostrophe that opens a CSS string and never closes it: not a declaration list
 				case truthy && v.K == "string":
 					ds := parseDecls(s)
 					for _, d := range ds {
@@ -711,7 +735,7 @@ func (c Case) model(k int) *expect {
 					pr := kebab(p.Key)
 					boundSet[pr] = true
 					switch {
-					case v.K == "string" && separatorInValue(v.S):
+					case v.K == "string" && (separatorInValue(v.S) || openQuote(v.S)):
 						// a value that ends its own declaration (injection) is not this property's subject;
 						// a ';' inside parentheses or quotes is part of the value
 						e.styleFree = true
@@ -1043,7 +1067,9 @@ func compare(e *expect, got map[string]string, order []string) string {
 		}
 		switch e.display {
 		case "none":
-			if gm["display"] != "none" {
+			// (a style that is not asserted - e.g. a value with an unclosed quote - cannot be split
+			// reliably either: the plain text is searched then)
+			if gm["display"] != "none" && !(e.styleFree && strings.Contains(strings.ReplaceAll(got["style"], " ", ""), "display:none")) {
 				return fmt.Sprintf("style=%q: v-show condition is falsy, display:none is missing", got["style"])
 			}
 		case "shown":
